@@ -24,6 +24,9 @@ pub struct L2State {
     pub pointer_seen: bool,
     /// a bare truncation happened and nothing was appended since: the in-process last term is stale
     pub bare_strip_pending: bool,
+    /// roll-over scenario: no cap on the log length, observations read windows around the end and the file boundaries
+    pub roll_mode: bool,
+    pub dir: std::path::PathBuf,
 }
 
 impl L2State {
@@ -134,7 +137,37 @@ fn cmp_entries(st: &L2State, got: &[Entry<ClientRequest>], a: u64, b: u64, what:
     Ok(())
 }
 
+/// roll-over scenarios hold 170k+ entries: ordinary observations read windows (around the end, around every file
+/// boundary the mirror knows, the log start); the full log is read after every reopen and at the end
+async fn observe_windows(h: &StoreHandle, st: &L2State, what: &str, check_last: bool) -> Result<(), String> {
+    let end = st.m.end();
+    let mut wins: Vec<(u64, u64)> = vec![(end.saturating_sub(700), end + 3), (0, 300)];
+    for (start, _) in &st.m.files {
+        wins.push((start.saturating_sub(300), start + 300));
+    }
+    for (a, b) in wins {
+        let got = h.store.get_log_entries(a, b).await.map_err(|e| format!("{}: get_log_entries({},{}) failed: {}", what, a, b, e))?;
+        cmp_entries(st, &got, a, b, &format!("{} window [{},{})", what, a, b))?;
+    }
+    if check_last {
+        if let Some((li, lt)) = st.model_last() {
+            let init = h.store.get_initial_state().await.map_err(|e| format!("{}: get_initial_state failed: {}", what, e))?;
+            if init.last_log_index != li || init.last_log_term != lt {
+                return Err(format!("{}: initial state reports last log (index {}, term {}), acknowledged last is (index {}, term {})", what, init.last_log_index, init.last_log_term, li, lt));
+            }
+        }
+    }
+    Ok(())
+}
+
+fn log_files_on_disk(dir: &std::path::Path) -> usize {
+    std::fs::read_dir(dir).map(|rd| rd.filter_map(|e| e.ok()).filter(|e| e.file_name().to_string_lossy().starts_with("log_")).count()).unwrap_or(0)
+}
+
 async fn observe(h: &StoreHandle, st: &L2State, what: &str, check_last: bool) -> Result<(), String> {
+    if st.roll_mode && !what.starts_with("after reopen") && !what.starts_with("after final reopen") && !what.starts_with("after append following final") {
+        return observe_windows(h, st, what, check_last).await;
+    }
     let b = st.m.end().max(st.maxptr().map(|p| p + 1).unwrap_or(0)) + 3;
     let got = h
         .store
@@ -237,7 +270,7 @@ async fn run_phase_ops(h: &StoreHandle, st: &mut L2State, ops: &[LogOp], pos: &m
                 append_n(h, st, 1, size, false, &[]).await.map_err(|e| format!("{}: {}", what, e))?;
             }
             LogOp::AppendMany { n, size, batch } => {
-                let n = (*n as usize).min(900usize.saturating_sub(st.m.entries.len()));
+                let n = if st.roll_mode { *n as usize } else { (*n as usize).min(900usize.saturating_sub(st.m.entries.len())) };
                 append_n(h, st, n, size, *batch, &[]).await.map_err(|e| format!("{}: {}", what, e))?;
                 if st.m.records_in_open_file() > 128 {
                     st.labels.insert("crosses_index_interval".into());
@@ -314,6 +347,38 @@ async fn run_phase_ops(h: &StoreHandle, st: &mut L2State, ops: &[LogOp], pos: &m
                 st.labels.insert("flush_timer_fired".into());
             }
             LogOp::BumpTerm => st.m.term += 1,
+            LogOp::FillToRollover { big, stop } => {
+                // minimal records (Blank payload, ~16 bytes: 2-byte index deltas) or ~150-byte records (3-byte deltas)
+                let vlen_forced: u64 = if *big { 118 + (st.m.end() % 13) } else { 0 };
+                let rec = record_len(st.m.end().max(20_000), st.m.term, if *big { vlen_forced + 0 } else { 7 });
+                let mut left = st.m.records_until_switch(rec).saturating_sub(*stop as u64);
+                let before = st.m.rollovers;
+                while left > 0 && st.m.rollovers == before {
+                    let chunk = left.min(2000) as usize;
+                    let mut es = vec![];
+                    for _ in 0..chunk {
+                        let (e, len, bytes, _) = mk_entry(st, &SizeClass::Tiny(0), Some(vlen_forced));
+                        st.m.push(e.term, bytes, len);
+                        es.push(e);
+                    }
+                    let first = es[0].index;
+                    if let Err(e) = h.store.replicate_to_log(&es).await {
+                        st.m.truncate(first);
+                        return Err(format!("{}: replicate_to_log of {} entries at {} failed: {}", what, chunk, first, e));
+                    }
+                    left -= chunk as u64;
+                    // the estimate is refined as the real record sizes (index varints grow) come in
+                    if left == 0 {
+                        let l2 = st.m.records_until_switch(rec).saturating_sub(*stop as u64);
+                        if l2 > 0 && st.m.rollovers == before {
+                            left = l2;
+                        }
+                    }
+                }
+                st.appended_since_open = true;
+                st.labels.insert(if *big { "fill_3_byte_index_deltas" } else { "fill_2_byte_index_deltas" }.into());
+                st.labels.insert("filled_to_rollover".into());
+            }
             LogOp::SplitOff { .. } => {}
             LogOp::CompactPointer { at } => {
                 // compaction happens at last_applied <= last, strictly above earlier pointers
@@ -416,6 +481,14 @@ async fn run_phase_ops(h: &StoreHandle, st: &mut L2State, ops: &[LogOp], pos: &m
         }
         let check_last = !st.bare_strip_pending;
         observe(h, st, &what, check_last).await?;
+        if st.roll_mode {
+            if st.m.rollovers > 0 {
+                st.labels.insert("real_rollover_predicted".into());
+            }
+            if log_files_on_disk(&st.dir) >= 2 {
+                st.labels.insert("second_log_file_on_disk".into());
+            }
+        }
     }
     Ok(false)
 }
@@ -442,7 +515,10 @@ pub fn run_l2(case: &LogCase, dir: &std::path::Path) -> L2State {
         trunc_observed: false,
         pointer_seen: false,
         bare_strip_pending: false,
+        roll_mode: case.ops.iter().any(|o| matches!(o, LogOp::FillToRollover { .. })),
+        dir: dir.to_path_buf(),
     };
+    st.m.track_roll = st.roll_mode;
     st.m.term = 1;
     let mut pos = 0usize;
     let mut err: Option<String> = None;
@@ -542,6 +618,7 @@ pub fn l2_case_report(case: &LogCase, profile: Profile) -> CaseReport {
             st.reopen_after_append
                 && (has("record_ends_on_1024_from_scan_base")
                     || has("crosses_index_interval")
+                    || has("second_log_file_on_disk")
                     || has("truncation")
                     || has("compaction_pointer")
                     || has("install_pointer_within_log")
